@@ -105,6 +105,9 @@ func runList(t *testing.T, s *ev.Shard, root string, c ListCase, seen map[string
 			seen[f.Sig] = true
 			s.Violation("list", f.Sig, f.Msg, f.Size, c)
 		}
+		// the enumeration runs shortest lists first, so the first witness is the minimal one;
+		// carrying on would cost a 5 s settling window for every further leaking case
+		t.Fatalf("violation recorded: %s", f.Msg)
 	}
 }
 
